@@ -6,6 +6,14 @@ async fn my_http(_request: oauth2::HttpRequest) -> Result<oauth2::HttpResponse, 
 }
 fn probe(@PARAMS@) {
     let client = oauth2::basic::BasicClient::new(id)@SETTERS@;
+    // a sleep function that is Send but NOT Sync (it owns a Cell): the future owns it, so the future is still Send
+    let my_sleep = {
+        let calls = std::cell::Cell::new(0u32);
+        move |d: std::time::Duration| {
+            calls.set(calls.get() + 1);
+            tokio::time::sleep(d)
+        }
+    };
     let fut = client.@METHOD@(@ARGS@)@UNWRAP@.request_async@TURBOFISH@(@RARGS@);
     assert_send(fut); // PROBE-LINE
 }
